@@ -1,1 +1,310 @@
+(* C04, time expressions: the transcribed recognisers of Model/ImscTime.v against the grammar of
+   Spec/TtmlTimingSpec.v.  Round trip for every member of the grammar (all 8 syntaxes), for all inputs. *)
 From TT Require Import Base.Prelude Base.ImscXml Model.ImscTime Spec.TtmlTimingSpec.
+From Coq Require Import QArith Lqa.
+Local Open Scope Z_scope.
+
+(* ---- digits ------------------------------------------------------------------------------ *)
+Lemma is_dec_digit d : is_dec d = true -> is_digit (chr d) = true.
+Proof. unfold is_dec, is_digit, chr. intro H. apply andb_true_iff in H as [H1 H2]. lia. Qed.
+
+Definition not_digit_head (r : text) : Prop := match r with [] => True | c :: _ => is_digit c = false end.
+
+Lemma span_digits_chrs ds r : all_dec ds = true -> not_digit_head r -> span_digits (chrs ds ++ r) = (chrs ds, r).
+Proof.
+  induction ds as [|d ds IH]; simpl; intros Hd Hr.
+  - destruct r as [|c r]; simpl; [reflexivity|]. simpl in Hr. rewrite Hr. reflexivity.
+  - apply andb_true_iff in Hd as [H1 H2]. rewrite (is_dec_digit _ H1). rewrite IH by assumption. reflexivity.
+Qed.
+
+Lemma digits_val_chrs ds : forall acc, digits_val acc (chrs ds) = fold_left (fun a d => a * 10 + d) ds acc.
+Proof.
+  induction ds as [|d ds IH]; intro acc; simpl; [reflexivity|].
+  rewrite IH. unfold chr. f_equal. lia.
+Qed.
+
+Lemma digits_val_nat_of ds : digits_val 0 (chrs ds) = nat_of ds.
+Proof. apply digits_val_chrs. Qed.
+
+Lemma fold_app_val (a b : list Z) acc :
+  fold_left (fun a d => a * 10 + d) (a ++ b) acc =
+  fold_left (fun a d => a * 10 + d) b (fold_left (fun a d => a * 10 + d) a acc).
+Proof. apply fold_left_app. Qed.
+
+Lemma fold_shift (b : list Z) : forall acc,
+  fold_left (fun a d => a * 10 + d) b acc = acc * Zpos (ten_to (length b)) + fold_left (fun a d => a * 10 + d) b 0.
+Proof.
+  induction b as [|d b IH]; intro acc.
+  - simpl. lia.
+  - cbn [fold_left length ten_to]. rewrite IH. rewrite (IH (0 * 10 + d)). lia.
+Qed.
+
+Lemma pow10_ten_to n : pow10 n = ten_to n.
+Proof. induction n; simpl; congruence. Qed.
+
+Lemma chrs_length ds : length (chrs ds) = length ds.
+Proof. apply map_length. Qed.
+
+Lemma chrs_app a b : chrs (a ++ b) = chrs a ++ chrs b.
+Proof. apply map_app. Qed.
+
+(* Fraction("ip.fp") is the number the grammar assigns to the digits *)
+Lemma dec_value_number ip fp : (dec_value (chrs ip) (chrs fp) == number ip fp)%Q.
+Proof.
+  unfold dec_value, number. rewrite <- chrs_app, digits_val_nat_of, chrs_length, pow10_ten_to.
+  unfold nat_of. rewrite fold_app_val, fold_shift.
+  set (A := fold_left (fun a d : Z => a * 10 + d) ip 0). set (B := fold_left (fun a d : Z => a * 10 + d) fp 0).
+  set (P := ten_to (length fp)).
+  unfold Qeq, Qplus, inject_Z. simpl. lia.
+Qed.
+
+(* ---- the number scanner on printed numbers -------------------------------------------- *)
+Definition clean_tail (r : text) : Prop :=
+  match r with [] => True | c :: _ => is_digit c = false /\ c <> 46 end.
+
+Lemma scan_number_print ip fp r :
+  is_nonempty_l ip = true -> all_dec ip = true -> all_dec fp = true -> clean_tail r ->
+  scan_number (chrs ip ++ frac_text fp ++ r) = Some (chrs ip, chrs fp, r).
+Proof.
+  intros Hne Hip Hfp Hr. unfold scan_number.
+  assert (Hnd : not_digit_head (frac_text fp ++ r)).
+  { destruct fp; simpl; [destruct r; simpl; [exact I|apply Hr]|reflexivity]. }
+  rewrite span_digits_chrs by assumption.
+  destruct ip as [|d ip]; [discriminate|]. simpl chrs at 1.
+  destruct fp as [|f fp].
+  - simpl frac_text. simpl app.
+    destruct r as [|c r]; [reflexivity|]. destruct Hr as [_ Hc].
+    destruct (Z.eq_dec c 46); [contradiction|].
+    destruct c; try reflexivity. repeat (destruct p; try reflexivity); contradiction.
+  - cbn [frac_text app].
+    assert (Hnr : not_digit_head r). { destruct r; [exact I|apply Hr]. }
+    rewrite (span_digits_chrs (f :: fp) r Hfp Hnr). reflexivity.
+Qed.
+
+(* ---- offsets ------------------------------------------------------------------------------- *)
+Lemma at_end_nil : at_end [] = true.  Proof. reflexivity. Qed.
+
+Lemma match_offset_print ip fp (u : text) anchored :
+  is_nonempty_l ip = true -> all_dec ip = true -> all_dec fp = true -> clean_tail u ->
+  match_offset u anchored (chrs ip ++ frac_text fp ++ u) = Some (dec_value (chrs ip) (chrs fp)).
+Proof.
+  intros. unfold match_offset. rewrite scan_number_print by assumption.
+  assert (Hs : strip_prefix u u = Some []).
+  { clear. induction u as [|a u IH]; simpl; [reflexivity|]. rewrite Z.eqb_refl. exact IH. }
+  rewrite Hs. destruct anchored; reflexivity.
+Qed.
+
+Lemma match_offset_other ip fp (u v : text) anchored :
+  is_nonempty_l ip = true -> all_dec ip = true -> all_dec fp = true -> clean_tail v ->
+  strip_prefix u v = None ->
+  match_offset u anchored (chrs ip ++ frac_text fp ++ v) = None.
+Proof.
+  intros. unfold match_offset. rewrite scan_number_print by assumption. rewrite H3. reflexivity.
+Qed.
+
+Ltac clean := simpl; try exact I; try (split; [reflexivity|discriminate]).
+
+Section Offsets.
+  Variables (ip fp : list Z).
+  Hypothesis Hne : is_nonempty_l ip = true.
+  Hypothesis Hip : all_dec ip = true.
+  Hypothesis Hfp : all_dec fp = true.
+
+  Let N := dec_value (chrs ip) (chrs fp).
+
+  Lemma pt_f tr fr : Qeq_bool fr 0 = false ->
+    parse_time_x tr (Some fr) (print_time (TOffset ip fp Mf)) = TVal (N / fr)%Q.
+  Proof.
+    intro Hz. unfold parse_time_x, print_time, metric_text, U_f, U_t, U_ms, U_s, U_m, U_h.
+    rewrite (match_offset_print ip fp [102] false) by (try assumption; clean).
+    unfold qdiv_res. rewrite Hz. reflexivity.
+  Qed.
+
+  Lemma pt_t tr fr : (tr =? 0) = false ->
+    parse_time_x (Some tr) fr (print_time (TOffset ip fp Mt)) = TVal (N / inject_Z tr)%Q.
+  Proof.
+    intro Hz. unfold parse_time_x, print_time, metric_text, U_f, U_t, U_ms, U_s, U_m, U_h.
+    rewrite (match_offset_other ip fp [102] [116] false) by (try assumption; clean; reflexivity).
+    rewrite (match_offset_print ip fp [116] true) by (try assumption; clean).
+    assert (Hq : Qeq_bool (inject_Z tr) 0 = false).
+    { apply Z.eqb_neq in Hz. unfold Qeq_bool, inject_Z. simpl. rewrite Z.mul_1_r.
+      destruct tr; [contradiction| reflexivity | reflexivity]. }
+    destruct fr; unfold qdiv_res; rewrite Hq; reflexivity.
+  Qed.
+
+  Lemma pt_ms tr fr :
+    parse_time_x tr fr (print_time (TOffset ip fp Mms)) = TVal (N / inject_Z 1000)%Q.
+  Proof.
+    unfold parse_time_x, print_time, metric_text, U_f, U_t, U_ms, U_s, U_m, U_h.
+    rewrite (match_offset_other ip fp [102] [109; 115] false) by (try assumption; clean; reflexivity).
+    rewrite (match_offset_other ip fp [116] [109; 115] true) by (try assumption; clean; reflexivity).
+    rewrite (match_offset_print ip fp [109; 115] true) by (try assumption; clean).
+    destruct fr, tr; reflexivity.
+  Qed.
+
+  Lemma pt_s tr fr :
+    parse_time_x tr fr (print_time (TOffset ip fp Ms)) = TVal N.
+  Proof.
+    unfold parse_time_x, print_time, metric_text, U_f, U_t, U_ms, U_s, U_m, U_h.
+    rewrite (match_offset_other ip fp [102] [115] false) by (try assumption; clean; reflexivity).
+    rewrite (match_offset_other ip fp [116] [115] true) by (try assumption; clean; reflexivity).
+    rewrite (match_offset_other ip fp [109; 115] [115] true) by (try assumption; clean; reflexivity).
+    rewrite (match_offset_print ip fp [115] true) by (try assumption; clean).
+    destruct fr, tr; reflexivity.
+  Qed.
+
+  Lemma pt_m tr fr :
+    parse_time_x tr fr (print_time (TOffset ip fp Mm)) = TVal (N * inject_Z 60)%Q.
+  Proof.
+    unfold parse_time_x, print_time, metric_text, U_f, U_t, U_ms, U_s, U_m, U_h.
+    rewrite (match_offset_other ip fp [102] [109] false) by (try assumption; clean; reflexivity).
+    rewrite (match_offset_other ip fp [116] [109] true) by (try assumption; clean; reflexivity).
+    rewrite (match_offset_other ip fp [109; 115] [109] true) by (try assumption; clean; reflexivity).
+    rewrite (match_offset_other ip fp [115] [109] true) by (try assumption; clean; reflexivity).
+    rewrite (match_offset_print ip fp [109] true) by (try assumption; clean).
+    destruct fr, tr; reflexivity.
+  Qed.
+
+  Lemma pt_h tr fr :
+    parse_time_x tr fr (print_time (TOffset ip fp Mh)) = TVal (N * inject_Z 3600)%Q.
+  Proof.
+    unfold parse_time_x, print_time, metric_text, U_f, U_t, U_ms, U_s, U_m, U_h.
+    rewrite (match_offset_other ip fp [102] [104] false) by (try assumption; clean; reflexivity).
+    rewrite (match_offset_other ip fp [116] [104] true) by (try assumption; clean; reflexivity).
+    rewrite (match_offset_other ip fp [109; 115] [104] true) by (try assumption; clean; reflexivity).
+    rewrite (match_offset_other ip fp [115] [104] true) by (try assumption; clean; reflexivity).
+    rewrite (match_offset_other ip fp [109] [104] true) by (try assumption; clean; reflexivity).
+    rewrite (match_offset_print ip fp [104] true) by (try assumption; clean).
+    destruct fr, tr; reflexivity.
+  Qed.
+End Offsets.
+
+(* ---- clock times ------------------------------------------------------------------------------ *)
+Lemma match_offset_colon hh rest (u : text) anchored a u' :
+  is_nonempty_l hh = true -> all_dec hh = true -> u = a :: u' -> a <> 58 ->
+  match_offset u anchored (chrs hh ++ 58 :: rest) = None.
+Proof.
+  intros Hne Hd -> Ha. unfold match_offset, scan_number.
+  rewrite span_digits_chrs by (try assumption; reflexivity).
+  destruct hh as [|h hh]; [discriminate|]. cbn [chrs map].
+  cbn [strip_prefix]. destruct (a =? 58) eqn:E; [lia|reflexivity].
+Qed.
+
+Lemma len2_nonempty (l : list Z) : (2 <=? Z.of_nat (length l)) = true -> is_nonempty_l l = true.
+Proof. destruct l; simpl; [discriminate|reflexivity]. Qed.
+
+Lemma dig2_chr a b : dig2 (chr a) (chr b) = nat_of [a; b].
+Proof. unfold dig2, chr, nat_of. cbn [fold_left]. lia. Qed.
+
+Definition tres_equiv (a : tres) (b : option Q) : Prop :=
+  match a, b with TVal q, Some v => (q == v)%Q | TBad, None => True | _, _ => False end.
+
+Section Clock.
+  Variables (hh : list Z) (m1 m2 s1 s2 : Z).
+  Hypothesis Hlen : (2 <=? Z.of_nat (length hh)) = true.
+  Hypothesis Hhh : all_dec hh = true.
+  Hypothesis Hm1 : is_dec m1 = true.  Hypothesis Hm2 : is_dec m2 = true.
+  Hypothesis Hs1 : is_dec s1 = true.  Hypothesis Hs2 : is_dec s2 = true.
+
+  Lemma offsets_none_on_clock tr fr rest :
+    parse_time_x tr fr (chrs hh ++ 58 :: rest) =
+    match match_clock_fraction (chrs hh ++ 58 :: rest) with
+    | Some (h, m, sec) => TVal (inject_Z h * inject_Z 3600 + inject_Z m * inject_Z 60 + sec)%Q
+    | None =>
+        match match_clock_frames (chrs hh ++ 58 :: rest), fr with
+        | Some (h, m, sec, ff), Some f =>
+            if Qle_bool f (inject_Z ff) then TBad
+            else TVal (inject_Z h * inject_Z 3600 + inject_Z m * inject_Z 60 + inject_Z sec + inject_Z ff / f)%Q
+        | _, _ => TBad
+        end
+    end.
+  Proof.
+    unfold parse_time_x.
+    pose proof (len2_nonempty _ Hlen) as Hne.
+    rewrite (match_offset_colon hh rest U_f false 102 []) by (try assumption; try reflexivity; lia).
+    rewrite (match_offset_colon hh rest U_t true 116 []) by (try assumption; try reflexivity; lia).
+    rewrite (match_offset_colon hh rest U_ms true 109 [115]) by (try assumption; try reflexivity; lia).
+    rewrite (match_offset_colon hh rest U_s true 115 []) by (try assumption; try reflexivity; lia).
+    rewrite (match_offset_colon hh rest U_m true 109 []) by (try assumption; try reflexivity; lia).
+    rewrite (match_offset_colon hh rest U_h true 104 []) by (try assumption; try reflexivity; lia).
+    destruct fr, tr; reflexivity.
+  Qed.
+
+  Lemma clock_fraction_print fp : all_dec fp = true ->
+    match_clock_fraction (chrs hh ++ [58; chr m1; chr m2; 58; chr s1; chr s2] ++ frac_text fp) =
+    Some (nat_of hh, nat_of [m1; m2], dec_value [chr s1; chr s2] (chrs fp)).
+  Proof.
+    intro Hfp. unfold match_clock_fraction.
+    cbn [app]. rewrite span_digits_chrs by (try assumption; reflexivity).
+    rewrite chrs_length, Hlen.
+    rewrite (is_dec_digit _ Hm1), (is_dec_digit _ Hm2), (is_dec_digit _ Hs1), (is_dec_digit _ Hs2). cbn [andb].
+    rewrite digits_val_nat_of, dig2_chr.
+    destruct fp as [|f fp].
+    - reflexivity.
+    - cbn [frac_text]. replace (chrs (f :: fp)) with (chrs (f :: fp) ++ []) at 1 by apply app_nil_r.
+      rewrite span_digits_chrs by (try assumption; exact I). reflexivity.
+  Qed.
+
+  Lemma clock_frames_fraction_none ff : (2 <=? Z.of_nat (length ff)) = true -> all_dec ff = true ->
+    match_clock_fraction (chrs hh ++ [58; chr m1; chr m2; 58; chr s1; chr s2; 58] ++ chrs ff) = None.
+  Proof.
+    intros Hl Hff. unfold match_clock_fraction.
+    cbn [app]. rewrite span_digits_chrs by (try assumption; reflexivity).
+    rewrite chrs_length, Hlen.
+    rewrite (is_dec_digit _ Hm1), (is_dec_digit _ Hm2), (is_dec_digit _ Hs1), (is_dec_digit _ Hs2). cbn [andb].
+    destruct ff as [|f ff]; [discriminate|]. reflexivity.
+  Qed.
+
+  Lemma clock_frames_print ff : (2 <=? Z.of_nat (length ff)) = true -> all_dec ff = true ->
+    match_clock_frames (chrs hh ++ [58; chr m1; chr m2; 58; chr s1; chr s2; 58] ++ chrs ff) =
+    Some (nat_of hh, nat_of [m1; m2], nat_of [s1; s2], nat_of ff).
+  Proof.
+    intros Hl Hff. unfold match_clock_frames.
+    cbn [app]. rewrite span_digits_chrs by (try assumption; reflexivity).
+    rewrite chrs_length, Hlen.
+    rewrite (is_dec_digit _ Hm1), (is_dec_digit _ Hm2), (is_dec_digit _ Hs1), (is_dec_digit _ Hs2). cbn [andb].
+    replace (chrs ff) with (chrs ff ++ []) at 1 by apply app_nil_r.
+    rewrite span_digits_chrs by (try assumption; exact I).
+    rewrite chrs_length, Hl. cbn [andb at_end].
+    rewrite !digits_val_nat_of, !dig2_chr. reflexivity.
+  Qed.
+End Clock.
+
+(* ---- the round trip: every member of the grammar, every syntax ------------------------------ *)
+Lemma Qeq_bool_pos_false q : (0 < q)%Q -> Qeq_bool q 0 = false.
+Proof.
+  intro H. destruct (Qeq_bool q 0) eqn:E; [|reflexivity].
+  apply Qeq_bool_iff in E. rewrite E in H. exfalso. apply (Qlt_irrefl 0). exact H.
+Qed.
+
+Theorem time_syntax e tr fr :
+  wf_texpr e = true -> 0 < tr -> (0 < fr)%Q ->
+  tres_equiv (parse_time_x (Some tr) (Some fr) (print_time e)) (time_value fr (inject_Z tr) e).
+Proof.
+  intros Hwf Htr Hfr. destruct e as [ip fp m | hh m1 m2 s1 s2 fp | hh m1 m2 s1 s2 ff]; simpl in Hwf.
+  - repeat (apply andb_true_iff in Hwf as [Hwf ?]).
+    pose proof (dec_value_number ip fp) as HN.
+    destruct m; cbn [time_value tres_equiv].
+    + rewrite pt_h by assumption. cbn. rewrite HN. reflexivity.
+    + rewrite pt_m by assumption. cbn. rewrite HN. reflexivity.
+    + rewrite pt_s by assumption. cbn. exact HN.
+    + rewrite pt_ms by assumption. cbn. rewrite HN. reflexivity.
+    + rewrite pt_f by (try assumption; apply Qeq_bool_pos_false; assumption). cbn. rewrite HN. reflexivity.
+    + rewrite pt_t by (try assumption; lia). cbn. rewrite HN. reflexivity.
+  - repeat (apply andb_true_iff in Hwf as [Hwf ?]).
+    unfold print_time. cbn [app].
+    rewrite (offsets_none_on_clock hh) by assumption.
+    change (chrs hh ++ 58 :: chr m1 :: chr m2 :: 58 :: chr s1 :: chr s2 :: frac_text fp)
+      with (chrs hh ++ [58; chr m1; chr m2; 58; chr s1; chr s2] ++ frac_text fp).
+    rewrite clock_fraction_print by assumption.
+    cbn [time_value tres_equiv].
+    pose proof (dec_value_number [s1; s2] fp) as HN. cbn [chrs map] in HN. rewrite HN. reflexivity.
+  - repeat (apply andb_true_iff in Hwf as [Hwf ?]).
+    unfold print_time. cbn [app].
+    rewrite (offsets_none_on_clock hh) by assumption.
+    change (chrs hh ++ 58 :: chr m1 :: chr m2 :: 58 :: chr s1 :: chr s2 :: 58 :: chrs ff)
+      with (chrs hh ++ [58; chr m1; chr m2; 58; chr s1; chr s2; 58] ++ chrs ff).
+    rewrite clock_frames_fraction_none, clock_frames_print by assumption.
+    cbn [time_value].
+    destruct (Qle_bool fr (inject_Z (nat_of ff))); cbn [tres_equiv]; [exact I|reflexivity].
+Qed.
